@@ -7,6 +7,19 @@ from . import solver_common as sc
 PID = "C12"
 
 
+METHOD_FUNCS = ["Method.FirstIteration", "Method.CalculateIterationPoint"]
+
+
+def in_scope(item):
+    f = str(item.get("func", ""))
+    if not any(q in f for q in METHOD_FUNCS):
+        return True
+    kind = str(item.get("kind", ""))
+    if not kind.startswith(("ensures", "requires[", "ghost-assert", "inv-", "raises")) or "#nonnull" in kind:
+        return True
+    return "fresh(" in (item.get("clause", "") or "")
+
+
 def run(tier, seed):
     chk = runner.Check(PID, tier, seed)
     repo = Repo()
@@ -15,6 +28,15 @@ def run(tier, seed):
     for rep in reps:
         chk.add_report(rep)
     sc.global_state_scan(chk, repo)
+    # ownership at run time: every item the method creates (and stores in the search information / publishes as the optimum)
+    # owns freshly allocated point and value holders - nothing handed in by the user (Problem, SolverParameters, start point)
+    # is aliased into a solver's footprint.  The item-creating functions of the method layer are re-verified here; only their
+    # freshness / ownership clauses are in C12's scope.
+    from . import method_common as mc
+    mreps = mc.build(METHOD_FUNCS)
+    verify.finish_reports(mreps)
+    for rep in mreps:
+        chk.add_report(rep)
     chk.inlined |= {"SearchDataItem one-line accessors (GetX/GetZ/GetIndex/GetLeft/GetRight/Set*)", "Method.min_delta property"}
     chk.assumptions += [
         sc.ASSUME_PY, sc.ASSUME_FRAME,
@@ -34,7 +56,7 @@ def run(tier, seed):
             _oracle_cache["r"] = sc.solver_oracle("c12", seed)
         return _oracle_cache["r"]
 
-    return chk.finish(oracle=oracle)
+    return chk.finish(oracle=oracle, in_scope=in_scope)
 
 
 def replay(path):
